@@ -164,7 +164,7 @@ func (c04) Build(tier string, seed uint64) []any {
 	th := tier == "thorough"
 	nPairs, nGridS, small, nRand, nContent := 250, 200, 8, 16, 60
 	if th {
-		nPairs, nGridS, small, nRand, nContent = 1500, 1600, 12, 300, 600
+		nPairs, nGridS, small, nRand, nContent = 15000, 4800, 16, 1200, 6000
 	}
 	for i := 0; i < nPairs; i++ {
 		r := gen.Sub(seed, "C04", "pairs", i)
@@ -189,7 +189,7 @@ func (c04) Build(tier string, seed uint64) []any {
 		c := &j2kCase{Gen: "grid"}
 		randJ2KConfig(r, c)
 		if th {
-			c.W, c.H = 1+i%40, 1+i/40
+			c.W, c.H = 1+i%40, 1+(i/40)%40
 		} else {
 			c.W, c.H = 1+r.Intn(40), 1+r.Intn(40)
 		}
@@ -232,7 +232,7 @@ func (c04) Build(tier string, seed uint64) []any {
 	// contributions (> 8 KiB per block, long pass lengths, Lblock growth)
 	nDense := 12
 	if th {
-		nDense = 120
+		nDense = 600
 	}
 	for i := 0; i < nDense; i++ {
 		r := gen.Sub(seed, "C04", "dense", i)
@@ -254,7 +254,7 @@ func (c04) Build(tier string, seed uint64) []any {
 	// the precinct size (and one off), every progression order
 	nPrec := 40
 	if th {
-		nPrec = 500
+		nPrec = 4000
 	}
 	for i := 0; i < nPrec; i++ {
 		r := gen.Sub(seed, "C04", "precgrid", i)
@@ -412,7 +412,7 @@ func (c19) Build(tier string, seed uint64) []any {
 	}
 	nPartial, nSmall, nRand, nBig := 40, 40, 120, 0
 	if th {
-		nPartial, nSmall, nRand, nBig = 400, 400, 2500, 60
+		nPartial, nSmall, nRand, nBig = 4000, 4000, 25000, 400
 	}
 	for i := 0; i < nPartial; i++ {
 		r := gen.Sub(seed, "C19", "partial", i)
